@@ -68,6 +68,34 @@ fn main() {
                         let p = gen::gen_wf(s, &c);
                         emit_group(&mut out, "loopout", &format!("seed={s}"), &[p]);
                     }
+                    "flow" => {
+                        let p = gen::gen_flow(s, i % 2 == 0);
+                        emit_group(&mut out, "flow", &format!("seed={s},clean={}", i % 2 == 0), &[p]);
+                    }
+                    "perm" => {
+                        let g = gen::gen_perm(s, 4);
+                        emit_group(&mut out, "perm", &format!("seed={s}"), &g);
+                    }
+                    "swap" => {
+                        let g = gen::gen_swap(s);
+                        emit_group(&mut out, "swap", &format!("seed={s}"), &g);
+                    }
+                    "chains" => {
+                        // exhaustive enumeration over the six priority classes, by length
+                        let ops = gen::chain_by_index(i as u64);
+                        let kinds = gen::Rng::new(s).next();
+                        let p = gen::chain_prog(&ops, kinds, i);
+                        emit_group(&mut out, "chains", &format!("idx={i},len={}", ops.len()), &[p]);
+                    }
+                    "chainsr" => {
+                        // random chains over all 15 operators, length up to 40
+                        let mut r = gen::Rng::new(s);
+                        let len = 1 + r.below(40);
+                        let ops: Vec<ir::Op> = (0..len).map(|_| *r.pick(&ir::ALL_OPS)).collect();
+                        let kinds = r.next();
+                        let p = gen::chain_prog(&ops, kinds, i);
+                        emit_group(&mut out, "chainsr", &format!("seed={s},len={len}"), &[p]);
+                    }
                     other => {
                         eprintln!("unknown profile {other}");
                         std::process::exit(2);
